@@ -21,7 +21,7 @@ btc_logf_t btc_sign_logf = btc_logf_dummy;
 btc_logf_t btc_segwit_logf = btc_logf_dummy;
 btc_logf_t btc_taproot_logf = btc_logf_dummy;
 
-opcodetype GetOpCode(const char* name)
+bool ParseOpCode(const char* name, opcodetype& opcode_out)
 {
     // trim out "OP_" as people tend to skip those
     bool expected_opcode = false;
@@ -37,11 +37,12 @@ opcodetype GetOpCode(const char* name)
             btc_logf("warning: opcode 'x' prefix must be followed by a one byte (2 hex digit) value\n");
         } else {
             int v = (HexDigit(name[1]) << 4) | HexDigit(name[2]);
-            return (opcodetype)v;
+            opcode_out = (opcodetype)v;
+            return true;
         }
     }
     // push value
-    #define c(v) if (!strcmp(#v, name)) return OP_##v
+    #define c(v) if (!strcmp(#v, name)) { opcode_out = OP_##v; return true; }
     c(0);
     c(FALSE);
     c(PUSHDATA1);
@@ -178,7 +179,15 @@ opcodetype GetOpCode(const char* name)
     if (expected_opcode) {
         btc_logf("warning: opcode-like string was not an opcode: %s\n", name);
     }
-    return OP_INVALIDOPCODE;
+    opcode_out = OP_INVALIDOPCODE;
+    return false;
+}
+
+opcodetype GetOpCode(const char* name)
+{
+    opcodetype opcode;
+    ParseOpCode(name, opcode);
+    return opcode;
 }
 
 void GetStackFeatures(opcodetype opcode, size_t& spawns, size_t& slays)
